@@ -11,6 +11,7 @@ Compared: reply bytes / silence / exception class, the state afterwards, whether
 import itertools
 import random
 
+import secsm
 from common import hx, setup_repo_import
 
 ID = "C13"
@@ -624,9 +625,15 @@ def _run(ctx, batch):
         r0 = reals[0]
         ctx.sample({"model": r0.spec[:300], "example": "sreq 1 none none 111111111 0 0 1001 none"})
 
+    # 6. the concrete server (no handler record, no raw bit): the session / security state machine over whole histories,
+    #    exhaustively over a small alphabet of request kinds, with both clock reads of handle_request (harness/secsm.py)
+    secsm.explore(ctx, "c13")
+
 
 def replay(ctx, case):
     c = case.get("case", case)
+    if c.get("kind") == "history":
+        return secsm.replay(ctx, c, "c13")
     env = make_env(0)
     S = env["UDSIsoServices"]
     params = dict(c["params"])
